@@ -44,6 +44,7 @@ RotKFull    == { 2 * j : j \in (-(M \div 2))..M }                      \* -2pi .
 RotKMid     == { -M, -2, 0, 2, M - 2, M, M + 2, 2 * M - 2, 2 * M }
 RotKSmall   == { -2, 0, 2, M, M + 2 }
 RotKTiny    == { 2, M - 2, M + 2 }
+RotKPair    == { 2, M - 2 }
 PhaseKFull  == (-M)..(2 * M)
 PhaseKMid   == { -M, -1, 0, 1, 3, M \div 2, M - 1, M, M + 1 }
 PhaseKSmall == { -1, 0, 1, M \div 2, M }
